@@ -40,8 +40,12 @@ var Solvers = []SolverCfg{
 var WorkDir = "/verif/work"
 
 func runSolver(cfg SolverCfg, timeoutS int, file string) (answer, out string, secs float64) {
+	return runSolverCtx(context.Background(), cfg, timeoutS, file)
+}
+
+func runSolverCtx(parent context.Context, cfg SolverCfg, timeoutS int, file string) (answer, out string, secs float64) {
 	args := cfg.Args(timeoutS, file)
-	ctx, cancel := context.WithTimeout(context.Background(), time.Duration(timeoutS+2)*time.Second)
+	ctx, cancel := context.WithTimeout(parent, time.Duration(timeoutS+2)*time.Second)
 	defer cancel()
 	cmd := exec.CommandContext(ctx, args[0], args[1:]...)
 	var buf bytes.Buffer
@@ -102,27 +106,29 @@ func Discharge(o *Obligation, timeoutS int, allSolvers bool) *Result {
 			}
 		}
 	}
-	hasQuant := strings.Contains(q, "(forall ") || strings.Contains(q, "(exists ")
-	for i, s := range Solvers {
-		_ = hasQuant
-		to := timeoutS
-		if o.Kind == "cover" {
-			// vacuity guards: short budget, first solver only
-			if i > 0 {
-				break
-			}
-			to = 3
-		}
-		ans, out, secs := runSolver(s, to, f.Name())
+	if o.Kind == "cover" {
+		// vacuity guards: short budget, first solver only
+		ans, out, secs := runSolver(Solvers[0], 3, f.Name())
 		r.Seconds += secs
-		r.Solver, r.Answer, r.Output = s.Name, ans, out
-		want := o.Expect
-		if ans == want {
+		r.Solver, r.Answer, r.Output = Solvers[0].Name, ans, out
+		if ans == o.Expect {
 			r.Status = "discharged"
 			return r
 		}
 		if ans == "sat" || ans == "unsat" {
-			// definite opposite answer
+			r.Status = "failed"
+			return r
+		}
+		r.Status = "cover-undecided"
+		return r
+	}
+	finish := func(s SolverCfg, ans, out string) bool {
+		r.Solver, r.Answer, r.Output = s.Name, ans, out
+		if ans == o.Expect {
+			r.Status = "discharged"
+			return true
+		}
+		if ans == "sat" || ans == "unsat" {
 			r.Status = "failed"
 			if ans == "sat" {
 				r.Model = parseModel(o, out)
@@ -130,9 +136,51 @@ func Discharge(o *Obligation, timeoutS int, allSolvers bool) *Result {
 					r.Model = m
 				}
 			}
+			return true
+		}
+		return false
+	}
+	// stage 1: the first solver alone with a short budget (decides almost everything)
+	short := timeoutS
+	if short > 8 {
+		short = 8
+	}
+	ans, out, secs := runSolver(Solvers[0], short, f.Name())
+	r.Seconds += secs
+	if finish(Solvers[0], ans, out) {
+		return r
+	}
+	// stage 2: race the whole portfolio with the full budget; the first definite answer wins
+	type answer struct {
+		s        SolverCfg
+		ans, out string
+	}
+	ctx, cancel := context.WithCancel(context.Background())
+	defer cancel()
+	ch := make(chan answer, len(Solvers))
+	t0 := time.Now()
+	n := 0
+	for i, s := range Solvers {
+		if i == 0 && short == timeoutS {
+			continue // already had the full budget
+		}
+		n++
+		go func(s SolverCfg) {
+			a, o2, _ := runSolverCtx(ctx, s, timeoutS, f.Name())
+			ch <- answer{s, a, o2}
+		}(s)
+	}
+	for ; n > 0; n-- {
+		a := <-ch
+		if a.ans == "sat" || a.ans == "unsat" {
+			cancel()
+			r.Seconds += time.Since(t0).Seconds()
+			finish(a.s, a.ans, a.out)
 			return r
 		}
+		r.Solver, r.Answer, r.Output = a.s.Name, a.ans, a.out
 	}
+	r.Seconds += time.Since(t0).Seconds()
 	r.Status = "unknown"
 	if o.Kind == "cover" {
 		// a vacuity guard that no solver could decide is not a failed proof; it is reported as undecided
